@@ -416,8 +416,7 @@ def link_lean(ctx):
 def link_thorough_binning(ctx):
     """(a) the assumed contract of bisect_right proved for CPython's Lib/bisect.py with a loop invariant;
     (b) the rounding facts hidden by A-real attempted in z3's FloatingPoint theory (Float64, RNE)."""
-    if ctx.tier != "thorough":
-        return []
+    # (both parts take well under a second, so they run in every tier; the name of the link is historical)
     out = []
     try:
         from contracts import stdlib_bisect
@@ -437,5 +436,6 @@ def link_thorough_binning(ctx):
                    props=("C03", "C16", "C10")))
     out.append(Obl("fp:accumulate/adding-zero-is-exact", "lemma:float64", "lemma", "binary64: a >= 0 finite ==> a (+) 0 == a   (a zero-weight group has an EMPTY interval also in float arithmetic)",
                    decide=smt_decider([fin(a), z3.fpGEQ(a, zero)], z3.fpEQ(z3.fpAdd(rm, a, zero), a), ctx.tier, second_solver=False), props=("C03", "C16")))
-    ctx.notes.append("A-real: the third rounding fact (0 <= u <= 1-2^-32, t normal ==> 0 <= u (*) t < t) was attempted in z3's FloatingPoint theory and stays an assumption (unknown after 300 s)")
+    if ctx.tier == "thorough":
+        ctx.notes.append("A-real: the third rounding fact (0 <= u <= 1-2^-32, t normal ==> 0 <= u (*) t < t) was attempted in z3's FloatingPoint theory and stays an assumption (unknown after 300 s)")
     return out
